@@ -378,7 +378,14 @@ func cmdConcStress(args []string) {
 			default:
 				ex = report.NewEnvironmental(h.e3, opt)
 			}
-			r, err := ex.ExportWithString(tmpls[o.b%len(tmpls)])
+			var r io.Reader
+			var err error
+			if tt := tmpls[o.b%len(tmpls)]; (o.b/7)%2 == 1 {
+				// through a reader that has no WriteTo method (the copy goes through a scratch buffer of the copier)
+				r, err = ex.ExportWith(io.LimitReader(strings.NewReader(tt), int64(len(tt))))
+			} else {
+				r, err = ex.ExportWithString(tt)
+			}
 			if err != nil {
 				return "error " + strings.Join(sentinelsOf(err), ",")
 			}
